@@ -12,7 +12,9 @@ def encode_timedelta(obj):
 
 
 def encode_datetime(obj):
-    units, _ = np.datetime_data(obj.dtype)
+    units, count = np.datetime_data(obj.dtype)
+    if count != 1:
+        units = f"{count}{units}"
     reference = obj[0]
 
     encoding = {"reference": str(reference), "units": units}
